@@ -901,7 +901,15 @@ class Interp:
             return const(False if is_or else True)
         if len(keep) == 1:
             return keep[0]
+        if len(keep) == 2 and self._boolean_term(keep[0]) and not self._boolean_term(keep[1]):
+            # ``<test> and value`` / ``<test> or value`` selects a value: the conditional it abbreviates
+            return mk_cond(keep[0], TRUE, keep[1]) if is_or else mk_cond(keep[0], keep[1], FALSE)
         return self._demorgan("or" if is_or else "and", tuple(keep))
+
+    @staticmethod
+    def _boolean_term(t) -> bool:
+        return isinstance(t, tuple) and bool(t) and (t[0] in ("not", "cmp") or (t[0] == "const" and isinstance(t[1], bool))
+                                                      or (t[0] == "bool" and all(Interp._boolean_term(x) for x in t[2])))
 
     def _ev_quantifier(self, st, n, tree):
         """``any(f(x) for x in TABLE)`` / ``all(...)`` over a small constant table: f(t1) or f(t2) or ..., evaluated left to
